@@ -76,7 +76,13 @@ def charclasses(s):
 
 def near_misses(s):
     out = [s + "x", "x" + s, s[:-1] if len(s) > 1 else s + s, s.upper() if s.upper() != s else s + "_"]
-    return [n for n in out if n != s and n.strip()]
+    uniq = []
+    for n in out:
+        if n != s and n.strip() and n not in uniq and n.strip() != s.strip():
+            uniq.append(n)
+    if len(uniq) < 2 or uniq[-1].strip() in [u.strip() for u in uniq[:-1]]:
+        uniq.append(s + "\u00e9z")  # the last one is the name that is looked up but never stored
+    return uniq
 
 
 def node(el):
